@@ -617,7 +617,7 @@ def ab_space(tag: str, np_: int, na: int, g: Any, failing: list[Any], cov: dict[
     vec = [r["v"] for r in rows]
     if any(len(x) != len(sigs) for x in vec):
         raise MachineryError("ArgBind %s: verdict vector length" % tag)
-    per = max(1, 8000 // len(sigs))
+    per = max(1, min(8000, max(1500, len(sigs) * len(calls) // (2 * NPROC))) // len(sigs))
     offs = list(range(0, len(calls), per))
     t0 = time.time()
     outs = pool_map(ab_chunk, [(sigs, calls[lo:lo + per], vec[lo:lo + per]) for lo in offs])
@@ -862,7 +862,7 @@ def check_c3(v: Verdict, tier: str, rnd: random.Random, cov: dict[str, Any]) -> 
     rows = g.json_lines("H")
     states, transitions = r.distinct, r.generated
     tl: dict[str, Any] = {"N=%d" % n: dict(coverage_summary(r), states=r.distinct, transitions=r.generated,
-                                          invariants=["WellFormed", "LocalPrecedence", "Monotone", "ChainsLinearise"])}
+                                          invariants=["WellFormed", "LocalPrecedence", "Monotone", "FirstBaseNext", "ChainsLinearise"])}
     exhaustive_n = len(rows)
     if len(rows) != r.distinct - 1:
         raise MachineryError("C3: %d hierarchies emitted for %d states" % (len(rows), r.distinct))
@@ -945,12 +945,17 @@ def r_text(c: dict[str, Any]) -> str:
     return "not (%s)" % t if c["neg"] else t
 
 
+_FAKE_SYS: dict[tuple[int, int, str], Any] = {}
+
+
 def r_runtime(code: Any, minor: int, micro: int, plat: str) -> str:
     """Truth value at run time: eval with a fake sys, in both worlds of the unknown name."""
-    import collections
-    import types
-    VI = collections.namedtuple("version_info", "major minor micro releaselevel serial")
-    fake = types.SimpleNamespace(version_info=VI(3, minor, micro, "final", 0), platform=plat)
+    fake = _FAKE_SYS.get((minor, micro, plat))
+    if fake is None:
+        import collections
+        import types
+        VI = collections.namedtuple("version_info", "major minor micro releaselevel serial")   # a tuple subclass, like sys.version_info
+        fake = _FAKE_SYS[(minor, micro, plat)] = types.SimpleNamespace(version_info=VI(3, minor, micro, "final", 0), platform=plat)
     vals = set()
     for unk in (True, False):
         try:
@@ -1603,6 +1608,17 @@ def main(argv: list[str]) -> int:
     for m in ("MC_ArgBind", "MC_C3", "MC_Reach", "MC_Fold"):
         sany(os.path.join(SPEC, m + ".tla"))
     tlc_prefetch(tier, seed, [p for p in PARTS if p in only])
+    # specification-level mutants: the rule-level invariants must reject a wrong rule (non-vacuity)
+    spec_mut = {}
+    for mod, cfg, inv, part in (("MC_Fold", "Mut_Fold_TruncDiv.cfg", "DivModLaw", "fold"),
+                                ("MC_C3", "Mut_C3_NoBaseList.cfg", "LocalPrecedence", "c3"),
+                                ("MC_Reach", "Mut_Reach_TwoTuple.cfg", "WholeNeverEqualsShort", "reach")):
+        if part in only:
+            rm = tlc(mod, cfg, coverage=False, workers=2)
+            spec_mut[cfg] = rm.violated
+            if rm.violated != inv:
+                raise MachineryError("specification mutant %s not rejected as expected: %s %s" % (cfg, rm.violated, rm.error))
+    cov["spec_mutants_rejected"] = spec_mut
     checks = {"argbind": check_argbind, "c3": check_c3, "reach": check_reach, "fold": check_fold}
     totals: dict[str, dict[str, int]] = {}
     for part in PARTS:
